@@ -1,0 +1,89 @@
+//go:build verif
+
+// Contracts for the deductive verifier in /verif (govc). This file contains no code: with the
+// build tag off it is not part of the package, with it on it adds nothing to the build.
+// Vocabulary: see app/antedl/duallane/verif_contracts.go and /verif/prelude/40_ante_tx.spec, 41_ante_calls.spec, 43_ante_authz.spec.
+package cosmoslane
+
+//@ import sdk "github.com/cosmos/cosmos-sdk/types"
+//@ import authz "github.com/cosmos/cosmos-sdk/x/authz"
+//@ import evmtypes "github.com/EscanBE/evermint/v12/x/evm/types"
+
+// ---------------------------------------------------------------------------------------------
+// 991c — a Cosmos-lane tx must not contain any Ethereum message
+// ---------------------------------------------------------------------------------------------
+//@ func (ead CLRejectEthereumMsgsDecorator) AnteHandle(ctx sdk.Context, tx sdk.Tx, simulate bool, next sdk.AnteHandler) (newCtx sdk.Context, err error)
+//@   modifies everything
+//@   ensures[C07.eth_passes] single(payload(tx)) ==> (hcN[0] == old(hcN[0]) + 1 && hcKind[old(hcN[0])] == 0 && hcCallee[old(hcN[0])] == next && hcCtx[old(hcN[0])] == ctx && hcTxTag[old(hcN[0])] == typeof(tx) && hcTx[old(hcN[0])] == payload(tx) && hcSim[old(hcN[0])] == simulate && newCtx == hcResCtx[old(hcN[0])] && typeof(err) == hcResErrTag[old(hcN[0])] && payload(err) == hcResErr[old(hcN[0])] && hcSawFlagNonce[old(hcN[0])] == old(trFlagNonce[layer(ctx)]) && hcSawFlagPaid[old(hcN[0])] == old(trFlagPaid[layer(ctx)]) && hcSawSeq[old(hcN[0])] == old(acctSeq[layer(ctx)]))
+//@   ensures[C07.mixed_rejected] (!single(payload(tx)) && hasEthMsg(payload(tx))) ==> (hcN[0] == old(hcN[0]) && err != nil && newCtx == ctx)
+//@   ensures[C07.cosmos_continues] (!single(payload(tx)) && !hasEthMsg(payload(tx))) ==> (hcN[0] == old(hcN[0]) + 1 && hcKind[old(hcN[0])] == 0 && hcCallee[old(hcN[0])] == next && hcCtx[old(hcN[0])] == ctx && hcTxTag[old(hcN[0])] == typeof(tx) && hcTx[old(hcN[0])] == payload(tx) && hcSim[old(hcN[0])] == simulate && newCtx == hcResCtx[old(hcN[0])] && typeof(err) == hcResErrTag[old(hcN[0])] && payload(err) == hcResErr[old(hcN[0])] && hcSawFlagNonce[old(hcN[0])] == old(trFlagNonce[layer(ctx)]) && hcSawFlagPaid[old(hcN[0])] == old(trFlagPaid[layer(ctx)]) && hcSawSeq[old(hcN[0])] == old(acctSeq[layer(ctx)]))
+//@ loop 1
+//@   invariant -1 <= rangeindex && (forall j int :: (0 <= j && j <= rangeindex) ==> !isEthMsgAt(payload(tx), j))
+
+// ---------------------------------------------------------------------------------------------
+// 992c — nested-message screening
+// ---------------------------------------------------------------------------------------------
+// execListOf(m): the inner message list of the *MsgExec object m (= the backing array of m.Msgs; see the requires below)
+//@ ghost func execListOf(m ref) ref
+// cleanMsg(dis, tag, obj, lvl): the message (dynamic type tag, object obj) sitting at nesting level lvl is acceptable:
+//   MsgExec : its inner messages decode, sit at an allowed level (lvl+1 <= 3) and are all clean at lvl+1
+//   MsgGrant: its authorization decodes and does not grant a disabled message type
+//   other   : top level (lvl 1), or its type URL is not disabled
+// The recursion over the level is unrolled for the depth cap maxNestedLevelsCount = 3 (clean3 = level 3 and deeper, where a
+// further MsgExec is never acceptable), so that the definitions are plain (non-recursive) abbreviations.
+//@ ghost func grantOk(dis set[string], obj ref) bool = grantDecodes(obj) && !(authzUrl(grantAuthTag(obj), grantAuthObj(obj)) in dis)
+//@ ghost func clean3(dis set[string], tag int, obj ref) bool = tag == type(*authz.MsgExec) ? false : (tag == type(*authz.MsgGrant) ? grantOk(dis, obj) : !(msgTypeUrl(tag) in dis))
+//@ ghost func clean2(dis set[string], tag int, obj ref) bool = tag == type(*authz.MsgExec) ? (execDecodes(execListOf(obj)) && (forall i int :: (0 <= i && i < txNMsgs(execListOf(obj))) ==> clean3(dis, txMsgTag(execListOf(obj), i), txMsgObj(execListOf(obj), i)))) : (tag == type(*authz.MsgGrant) ? grantOk(dis, obj) : !(msgTypeUrl(tag) in dis))
+//@ ghost func clean1(dis set[string], tag int, obj ref) bool = tag == type(*authz.MsgExec) ? (execDecodes(execListOf(obj)) && (forall i int :: (0 <= i && i < txNMsgs(execListOf(obj))) ==> clean2(dis, txMsgTag(execListOf(obj), i), txMsgObj(execListOf(obj), i)))) : (tag == type(*authz.MsgGrant) ? grantOk(dis, obj) : true)
+//@ ghost func cleanMsg(dis set[string], tag int, obj ref, lvl int) bool = lvl <= 1 ? clean1(dis, tag, obj) : (lvl == 2 ? clean2(dis, tag, obj) : clean3(dis, tag, obj))
+
+//@ func (rmd CLRejectAuthzMsgsDecorator) isDisabledMsg(msgTypeURL string) bool
+//@   modifies nothing
+//@   ensures[C07.disabled_lookup] result == (msgTypeURL in rmd.disabledNestedMsgs)
+//@   panics never
+
+// The first requires is definitional: it names, for the state at entry, the inner list of every MsgExec object.
+//@ func (rmd CLRejectAuthzMsgsDecorator) checkDisabledMsgs(msgs []sdk.Msg, nestedLvl int) (err error)
+//@   requires forall m *authz.MsgExec :: execListOf(m) == base(m.Msgs)
+//@   requires nestedLvl >= 1 && rmd.disabledNestedMsgs != nil
+//@   modifies nothing
+//@   ensures[C07.clean_accepts,C16.clean_accepts] err == nil ==> (nestedLvl <= 3 && (forall i int :: (0 <= i && i < len(msgs)) ==> cleanMsg(keys(rmd.disabledNestedMsgs), typeof(msgs[i]), payload(msgs[i]), nestedLvl)))
+//@   ensures[C07.clean_rejects,C16.clean_rejects] err != nil ==> !(nestedLvl <= 3 && (forall i int :: (0 <= i && i < len(msgs)) ==> cleanMsg(keys(rmd.disabledNestedMsgs), typeof(msgs[i]), payload(msgs[i]), nestedLvl)))
+//@ loop 1
+//@   invariant -1 <= rangeindex && nestedLvl <= 3 && (forall j int :: (0 <= j && j <= rangeindex) ==> cleanMsg(keys(rmd.disabledNestedMsgs), typeof(msgs[j]), payload(msgs[j]), nestedLvl))
+
+//@ func (rmd CLRejectAuthzMsgsDecorator) AnteHandle(ctx sdk.Context, tx sdk.Tx, simulate bool, next sdk.AnteHandler) (newCtx sdk.Context, err error)
+//@   requires forall m *authz.MsgExec :: execListOf(m) == base(m.Msgs)
+//@   requires rmd.disabledNestedMsgs != nil
+//@   modifies everything
+//@   ensures[C07.eth_passes] single(payload(tx)) ==> (hcN[0] == old(hcN[0]) + 1 && hcKind[old(hcN[0])] == 0 && hcCallee[old(hcN[0])] == next && hcCtx[old(hcN[0])] == ctx && hcTxTag[old(hcN[0])] == typeof(tx) && hcTx[old(hcN[0])] == payload(tx) && hcSim[old(hcN[0])] == simulate && newCtx == hcResCtx[old(hcN[0])] && typeof(err) == hcResErrTag[old(hcN[0])] && payload(err) == hcResErr[old(hcN[0])] && hcSawFlagNonce[old(hcN[0])] == old(trFlagNonce[layer(ctx)]) && hcSawFlagPaid[old(hcN[0])] == old(trFlagPaid[layer(ctx)]) && hcSawSeq[old(hcN[0])] == old(acctSeq[layer(ctx)]))
+//@   ensures[C07.cosmos_next_or_reject] !single(payload(tx)) ==> ((hcN[0] == old(hcN[0]) + 1 && hcKind[old(hcN[0])] == 0 && hcCallee[old(hcN[0])] == next && hcCtx[old(hcN[0])] == ctx && hcTxTag[old(hcN[0])] == typeof(tx) && hcTx[old(hcN[0])] == payload(tx) && hcSim[old(hcN[0])] == simulate && newCtx == hcResCtx[old(hcN[0])] && typeof(err) == hcResErrTag[old(hcN[0])] && payload(err) == hcResErr[old(hcN[0])] && hcSawFlagNonce[old(hcN[0])] == old(trFlagNonce[layer(ctx)]) && hcSawFlagPaid[old(hcN[0])] == old(trFlagPaid[layer(ctx)]) && hcSawSeq[old(hcN[0])] == old(acctSeq[layer(ctx)])) || (hcN[0] == old(hcN[0]) && err != nil && newCtx == ctx))
+//@   ensures[C07.nested_clean,C16.nested_clean] !single(payload(tx)) ==> ((hcN[0] == old(hcN[0]) + 1) == (forall i int :: (0 <= i && i < txNMsgs(payload(tx))) ==> cleanMsg(old(keys(rmd.disabledNestedMsgs)), txMsgTag(payload(tx), i), txMsgObj(payload(tx), i), 1)))
+
+// The screening set is exactly the configured list (and the map is allocated: precondition of the two functions above).
+//@ func NewCosmosLaneRejectAuthzMsgsDecorator(disabledNestedMsgs []string) CLRejectAuthzMsgsDecorator
+//@   modifies nothing
+//@   ensures[C07.disabled_set_is_list,C16.disabled_set_is_list] result.disabledNestedMsgs != nil && (forall s string :: (s in result.disabledNestedMsgs) == (exists i int :: 0 <= i && i < len(disabledNestedMsgs) && disabledNestedMsgs[i] == s))
+//@   panics never
+//@ loop 1
+//@   invariant -1 <= rangeindex && rangeindex < len(disabledNestedMsgs) && d.disabledNestedMsgs != nil && fresh(d.disabledNestedMsgs) && (forall s string :: (s in d.disabledNestedMsgs) == (exists i int :: 0 <= i && i <= rangeindex && disabledNestedMsgs[i] == s)) && (forall r ref :: !fresh(r) ==> keysAt(r, d.disabledNestedMsgs) == old(keysAt(r, d.disabledNestedMsgs)))
+
+// ---------------------------------------------------------------------------------------------
+// 993c — vesting-account creation only for addresses with a stored proof of external ownership (C16)
+// ---------------------------------------------------------------------------------------------
+//@ import vestingtypes "github.com/cosmos/cosmos-sdk/x/auth/vesting/types"
+//@ ghost func isVestingCreate(tag int) bool = tag == type(*vestingtypes.MsgCreateVestingAccount) || tag == type(*vestingtypes.MsgCreatePeriodicVestingAccount) || tag == type(*vestingtypes.MsgCreatePermanentLockedAccount)
+// vestTo(obj, tag): the ToAddress of the vesting-creation message object (definitional requires on AnteHandle: names heap content at entry)
+//@ ghost func vestTo(tag int, obj ref) string
+
+//@ func (vmd CLVestingMessagesAuthorizationDecorator) AnteHandle(ctx sdk.Context, tx sdk.Tx, simulate bool, next sdk.AnteHandler) (newCtx sdk.Context, err error)
+//@   requires forall m *vestingtypes.MsgCreateVestingAccount :: vestTo(type(*vestingtypes.MsgCreateVestingAccount), m) == m.ToAddress
+//@   requires forall m *vestingtypes.MsgCreatePeriodicVestingAccount :: vestTo(type(*vestingtypes.MsgCreatePeriodicVestingAccount), m) == m.ToAddress
+//@   requires forall m *vestingtypes.MsgCreatePermanentLockedAccount :: vestTo(type(*vestingtypes.MsgCreatePermanentLockedAccount), m) == m.ToAddress
+//@   requires forall a bytes :: {vauthProof[layer(ctx)][a]} vauthProof[layer(ctx)][a] == kvHas[kvId(layer(ctx), payload(vmd.vak.storeKey))][vauthProofKey(a)]
+//@   modifies everything
+//@   ensures[C07.eth_passes] single(payload(tx)) ==> (hcN[0] == old(hcN[0]) + 1 && hcKind[old(hcN[0])] == 0 && hcCallee[old(hcN[0])] == next && hcCtx[old(hcN[0])] == ctx && hcTxTag[old(hcN[0])] == typeof(tx) && hcTx[old(hcN[0])] == payload(tx) && hcSim[old(hcN[0])] == simulate && newCtx == hcResCtx[old(hcN[0])] && typeof(err) == hcResErrTag[old(hcN[0])] && payload(err) == hcResErr[old(hcN[0])] && hcSawFlagNonce[old(hcN[0])] == old(trFlagNonce[layer(ctx)]) && hcSawFlagPaid[old(hcN[0])] == old(trFlagPaid[layer(ctx)]) && hcSawSeq[old(hcN[0])] == old(acctSeq[layer(ctx)]))
+//@   ensures[C16.cosmos_next_or_reject] !single(payload(tx)) ==> ((hcN[0] == old(hcN[0]) + 1 && hcKind[old(hcN[0])] == 0 && hcCallee[old(hcN[0])] == next && hcCtx[old(hcN[0])] == ctx && hcTxTag[old(hcN[0])] == typeof(tx) && hcTx[old(hcN[0])] == payload(tx) && hcSim[old(hcN[0])] == simulate && newCtx == hcResCtx[old(hcN[0])] && typeof(err) == hcResErrTag[old(hcN[0])] && payload(err) == hcResErr[old(hcN[0])] && hcSawFlagNonce[old(hcN[0])] == old(trFlagNonce[layer(ctx)]) && hcSawFlagPaid[old(hcN[0])] == old(trFlagPaid[layer(ctx)]) && hcSawSeq[old(hcN[0])] == old(acctSeq[layer(ctx)])) || (hcN[0] == old(hcN[0]) && err != nil && newCtx == ctx))
+//@   ensures[C16.needs_proof] !single(payload(tx)) ==> ((hcN[0] == old(hcN[0]) + 1) == (forall i int :: (0 <= i && i < txNMsgs(payload(tx)) && isVestingCreate(txMsgTag(payload(tx), i))) ==> old(vauthProof[layer(ctx)])[bech32Bytes(vestTo(txMsgTag(payload(tx), i), txMsgObj(payload(tx), i)))]))
+//@ loop 1
+//@   invariant -1 <= rangeindex && hcN[0] == old(hcN[0]) && vauthProof[layer(ctx)] == old(vauthProof[layer(ctx)]) && (forall j int :: (0 <= j && j <= rangeindex && isVestingCreate(txMsgTag(payload(tx), j))) ==> vauthProof[layer(ctx)][bech32Bytes(vestTo(txMsgTag(payload(tx), j), txMsgObj(payload(tx), j)))])
